@@ -37,6 +37,10 @@
 #ifndef SS_PROOF
 #define SS_PROOF 0
 #endif
+// SS_CANON: 1 = variables are numbered in trail order (symmetry reduction), 0 = arbitrary numbering
+#ifndef SS_CANON
+#define SS_CANON 0
+#endif
 
 namespace ss {
 using namespace opensmt;
@@ -49,7 +53,10 @@ enum { STRIDE = SS_ML + 2,                               // header + literals + 
 // ---- raw storage -------------------------------------------------------------------------------------------------
 // typed storage without construction: only declared here, defined in satstate_rt.c (c_include / native_c of every spec)
 }
-extern "C" { extern opensmt::CoreSMTSolver ss_solver_obj; extern opensmt::SMTConfig ss_config_obj; }
+extern "C" {
+extern opensmt::CoreSMTSolver ss_solver_obj; extern opensmt::SMTConfig ss_config_obj;
+extern opensmt::vec<opensmt::Map<opensmt::Var, int, opensmt::VarHash>::Pair> ss_amap_tbl[31];   // hash table of assumptions_order
+}
 namespace ss {
 static_assert(sizeof(CoreSMTSolver) <= 4096 && sizeof(SMTConfig) <= 4096, "native replay storage in satstate_rt.c too small");
 alignas(16) static unsigned char thandler_mem[64];
@@ -76,6 +83,14 @@ static int g_thvar[SS_NV + 2];
 static int g_thsz[SS_NV + 2];
 static int g_thlit[SS_NV + 2][SS_TL];
 static bool g_bad_getreason;
+// assumptions (C01): g_na assumption literals over distinct variables; active = negative literals (enabled frames)
+#ifndef SS_NA
+#define SS_NA (SS_NL + 1)
+#endif
+static int g_na;
+static int g_asm[SS_NA];
+static bool g_asmvar[SS_NV];         // v is the variable of an assumption literal
+static int g_order[SS_NV];           // assumptions_order[v] for active assumption variables, -1 otherwise
 
 static inline int lvar(int l) { return l >> 1; }
 static inline bool lit_true_entry(int l) { return g_val[lvar(l)] == (uint8_t)(l & 1); }
@@ -132,8 +147,14 @@ extern "C" void ss_getReason(THandler *, Lit p, vec<Lit> & r) {
         VASSUME(lit_ok(l));
         if (j < m) {
             VASSUME(lit_false_entry(l) && g_pos[lvar(l)] < i);
+#ifdef SS_ASSUMPTIONS
+            VASSUME(!(g_asmvar[lvar(l)] && (l & 1)));   // frame literals occur only positively (see assume_assumptions)
+#endif
             if (sig(l)) sat = true;
         }
+#ifdef SS_DISTINCT_VARS
+        if (j < m) { VASSUME(lvar(l) != v); for (int i = 1; i < j; i++) VASSUME(lvar(g_thlit[g_nth][i]) != lvar(l)); }
+#endif
         r[j] = toLit(l);
         g_thlit[g_nth][j] = l;
     }
@@ -150,7 +171,7 @@ static void build_state(int min_level) {
     g_n = nondet_u8(); VASSUME(g_n >= 0 && g_n <= SS_NV);
     for (int v = 0; v < SS_NV; v++) { g_pos[v] = -1; g_val[v] = 2; g_lev[v] = 0; }
     for (int i = 0; i < SS_NV; i++) {
-#ifdef SS_CANON
+#if SS_CANON
         int l = 2 * i + (nondet_u8() & 1);   // variables are numbered in trail order (a renaming of the variables)
 #else
         int l = nondet_u8(); VASSUME(lit_ok(l));
@@ -170,7 +191,12 @@ static void build_state(int min_level) {
     for (int k = 0; k < SS_NC; k++) {
         g_csz[k] = nondet_u8(); VASSUME(g_csz[k] >= 1 && g_csz[k] <= SS_ML);
         g_clearnt[k] = nondet_bool();
-        for (int j = 0; j < SS_ML; j++) { int l = nondet_u8(); VASSUME(lit_ok(l)); g_clit[k][j] = l; }
+        for (int j = 0; j < SS_ML; j++) {
+            int l = nondet_u8(); VASSUME(lit_ok(l)); g_clit[k][j] = l;
+#ifdef SS_DISTINCT_VARS
+            if (j < g_csz[k]) for (int i = 0; i < j; i++) VASSUME(lvar(g_clit[k][i]) != lvar(l));   // stored clauses are duplicate-free and non-tautological
+#endif
+        }
     }
     // reasons
     for (int i = 0; i < SS_NV; i++) {
@@ -255,6 +281,52 @@ static void materialize() {
     CFG->sat_temporary_learn = 1;
     CFG->sat_minimize_conflicts = 1;
 #endif
+}
+
+// Assumption state at the point where search() calls analyzeFinal: call after build_state, before materialize.
+//  * g_na > decisionLevel assumption literals over pairwise distinct variables; every decision level so far is an
+//    assumption level: a non-empty level L starts with assumptions[L-1], an empty (dummy) level L has assumptions[L-1]
+//    already true at a lower level; the next assumption a = assumptions[decisionLevel] is FALSE under the trail.
+//  * assumption variables are MainSolver's frame variables: the NEGATIVE literal of an assumption variable occurs in no
+//    reason clause and in no theory reason (clauses of a frame carry the frame literal positively; learnt clauses are
+//    resolvents of those).  Assumed for the reason clauses here and for theory reasons in ss_getReason.
+static void assume_assumptions() {
+    g_na = nondet_u8(); VASSUME(g_na > g_nl && g_na <= SS_NA);
+    for (int v = 0; v < SS_NV; v++) { g_asmvar[v] = false; g_order[v] = -1; }
+    int active = 0;
+    for (int k = 0; k < SS_NA; k++) {
+        int l = nondet_u8(); VASSUME(lit_ok(l));
+        g_asm[k] = l;
+        if (k < g_na) {
+            VASSUME(!g_asmvar[lvar(l)]);
+            g_asmvar[lvar(l)] = true;
+            if (l & 1) g_order[lvar(l)] = active++;
+        }
+    }
+    for (int L = 1; L <= SS_NL; L++) if (L <= g_nl) {
+        int a = g_asm[L - 1];
+        bool empty = (L < g_nl ? g_lim[L] : g_n) == g_lim[L - 1];
+        VASSUME(lit_true_entry(a));
+        if (empty) VASSUME(g_pos[lvar(a)] < g_lim[L - 1]); else VASSUME(g_pos[lvar(a)] == g_lim[L - 1]);
+    }
+    VASSUME(lit_false_entry(g_asm[g_nl]));
+    for (int v = 0; v < SS_NV; v++) if (g_pos[v] >= 0 && g_kind[v] == K_CLAUSE)
+        for (int j = 1; j < SS_ML; j++) if (j < g_csz[v]) { int l = g_clit[v][j]; VASSUME(!(g_asmvar[lvar(l)] && (l & 1))); }
+}
+
+// write assumptions / assumptions_order (a real minisat Map: 31 buckets, identity hash) into the solver object
+static Map<Var, int, VarHash>::Pair buf_pairs[SS_NV];
+static Lit buf_assumptions[SS_NA];
+static void materialize_assumptions() {
+    prealloc(S->assumptions, buf_assumptions, SS_NA, g_na);
+    for (int k = 0; k < SS_NA; k++) S->assumptions[k] = toLit(g_asm[k]);
+    int n = 0;
+    for (int v = 0; v < SS_NV; v++) {
+        vec<Map<Var, int, VarHash>::Pair> & b = ss_amap_tbl[v];
+        b.data = &buf_pairs[v]; b.cap = 1; b.sz = 0;
+        if (g_order[v] >= 0) { buf_pairs[v].key = v; buf_pairs[v].data = g_order[v]; b.sz = 1; n++; }
+    }
+    S->assumptions_order.table = ss_amap_tbl; S->assumptions_order.cap = 31; S->assumptions_order.size = n;
 }
 
 static inline bool seen_clear() { bool z = true; for (int v = 0; v < SS_NV; v++) if (S->seen[v] != 0) z = false; return z; }
